@@ -136,6 +136,30 @@ fn attack(ctx: &Ctx, b: &Bundle) {
             }
         }
     }
+    // direct recomputation: a proof field that is an exact multiple k * x of a secret for a factor k the
+    // recipient knows (challenge, challenge +- 1, another field): x = field / k
+    {
+        let explicit: Vec<(String, Integer)> = ls.iter().filter(|(p, _)| p.ends_with("/challenge") || p.ends_with("/C")).map(|(p, v)| (path_class(p), v.clone())).collect();
+        for (p, sv) in &ls {
+            if *sv == 0 {
+                continue;
+            }
+            for (cn, c) in &explicit {
+                for (dk, k) in [("c", c.clone()), ("c+1", Integer::from(c + 1u32)), ("c-1", Integer::from(c - 1u32))] {
+                    if k <= 1 || !sv.is_divisible(&k) {
+                        continue;
+                    }
+                    let q = Integer::from(sv / &k);
+                    for (kind, x) in &b.secrets {
+                        if &q == x && x.significant_bits() > 16 {
+                            found.push((path_class(p), format!("{}[{}]", dk, cn), "exact-division".into(), kind.clone()));
+                        }
+                    }
+                }
+            }
+            ctx.count("exact_division_tests", explicit.len() as u64 * 3);
+        }
+    }
     found.sort();
     found.dedup();
     for (vf, rf, bl, kind) in &found {
@@ -169,5 +193,19 @@ pub fn scenarios(ctx: &Ctx) -> Vec<Scenario> {
     for i in 0..ctx.t(1u64, 3u64) {
         v.push(scenario("CL1024", move |c| run::<CL1024Sha256>(c, i, nmax)));
     }
+    // many attributes, hidden positions deep in the vector
+    let quick = ctx.quick();
+    v.push(scenario("CL1024/large-n", move |c| {
+        let mut r = c.rng("c17-large", 0);
+        let shapes: Vec<(usize, Vec<usize>)> = if quick {
+            vec![(70, vec![5, 64]), (33, vec![32])]
+        } else {
+            vec![(70, vec![5, 64]), (96, vec![31, 69, 95]), (33, vec![32]), (130, vec![0, 64, 128, 129]), (17, vec![16])]
+        };
+        let bundles = large_bundles::<CL1024Sha256>(c, &mut r, &shapes);
+        c.count("proofs_attacked", bundles.len() as u64);
+        c.count("large_attribute_count_proofs", bundles.len() as u64);
+        par_for_each(&bundles, 8, |b| attack(c, b));
+    }));
     v
 }
